@@ -145,14 +145,17 @@ def isolate_crash(ctx, binp, chunk, events):
     return None
 
 
-def judge(ctx, variant, mon):
-    """Turns monitor verdicts into violations / known findings."""
+def judge(ctx, variant, mon, witness_text=None):
+    """Turns monitor verdicts into violations / known findings.  witness_text(cid, clause, witness) may
+    supply the text of the violating token, by which a known finding can be identified."""
     ctx.states += mon["states"]
     ctx.transitions += mon["transitions"]
     ctx.traces += mon["records"]
     known = common.load_known()
     for cid, clause, count, witness in mon["verdicts"]:
-        case = ctx.cases.get(cid, {"id": cid, "src": ""})
+        case = dict(ctx.cases.get(cid, {"id": cid, "src": ""}))
+        if witness_text is not None:
+            case["witness_text"] = witness_text(cid, clause, witness)
         hit = None
         for f in known.get("findings", []):
             if common.finding_matches(f, ctx.prop, clause, case):
@@ -337,11 +340,11 @@ def write_pairs(ctx, tag, tuples):
     return paths
 
 
-def judge_pairs(ctx, tag, paths):
+def judge_pairs(ctx, tag, paths, witness_text=None):
     if not paths:
         return
     mon = common.monitor(ctx.prop, paths, ctx.dir, workers_each=2, parallel=8)
-    judge(ctx, tag, mon)
+    judge(ctx, tag, mon, witness_text)
     log("[%s] %s: %d tuples monitored in %.1fs, %d verdict lines, %d skipped" % (
         ctx.prop, tag, mon["records"], mon["wall"], len(mon["verdicts"]), len(mon["skipped"])))
     ctx.extra["skipped_" + tag] = len(mon["skipped"])
@@ -882,7 +885,182 @@ def run_conf(ctx):
     return finish(ctx, "model_checking", "conformance of recorded steps with spec/SasLexer.tla", [])
 
 
-RUNNERS = {"CONF": run_conf, "C12": run_gen_prop, "C13": run_gen_prop, "C14": run_gen_prop, "C15": run_c15, "C16": run_c16, "C17": run_c17, "C18": run_c18, "C19": run_c19}
+# ----------------------------------------------------------------------------- C20 (Python binding)
+
+def run_c20(ctx):
+    import subprocess
+    import tempfile
+    q = ctx.quick()
+    pyrun = os.path.join(common.VERIF, "pyharness", "pyrun.py")
+    scratch = tempfile.mkdtemp(prefix="verif-c20-")
+    try:
+        for item in ("Cargo.toml", "Cargo.lock", "crates", "src", "pyproject.toml"):
+            srcp = os.path.join(common.REPO, item)
+            dst = os.path.join(scratch, item)
+            if os.path.isdir(srcp):
+                shutil.copytree(srcp, dst, ignore=shutil.ignore_patterns("target"))
+            else:
+                shutil.copy(srcp, dst)
+        t0 = time.time()
+        p = subprocess.run([sys_python(), pyrun, "build", scratch, os.path.join(common.WORK, "target-py")],
+                           stdout=subprocess.PIPE, stderr=subprocess.STDOUT, text=True)
+        try:
+            b = json.loads(p.stdout.strip().splitlines()[-1])
+        except Exception:
+            raise ToolError("pyrun build gave no result: " + p.stdout[-1000:])
+        if not b.get("ok"):
+            raise ToolError("building the Python extension failed:\n" + b.get("log", ""))
+        log("[build] python extension ok (%.1fs)" % (time.time() - t0))
+        # C20_generated: the build script has rewritten the enum modules of the scratch copy
+        gen_diff = []
+        for fn in ("token_type.py", "token_channel.py", "error_kind.py"):
+            a = open(os.path.join(common.REPO, "src/sas_lexer", fn), "rb").read()
+            g = open(os.path.join(scratch, "src/sas_lexer", fn), "rb").read()
+            if a != g:
+                gen_diff.append(fn)
+        ctx.extra["generated_enum_modules_identical"] = not gen_diff
+        # inputs
+        must = [s for _, s in gen.corpus() if _.startswith("sample:")]
+        progs, stats = gen_programs(ctx, False, sim_n=2500 if q else 40000, fuel_sim=[6, 12])
+        must += ["".join(j["src"]) for j in progs]
+        ctx.add_cases("wellformed", must)
+        nmust = len(ctx.cases)
+        base_inputs(ctx, soup_n=2500 if q else 40000, mb_n=400 if q else 4000, lf_n=200 if q else 2000, cover_n=400 if q else 20000)
+        ctx.add_cases("string_family", gen.string_family(ctx.rng, 1500 if q else 30000))
+        pick_samples(ctx)
+        cases = list(ctx.cases.values())
+        must_ids = {c["id"] for c in cases if c["fam"] == "wellformed"}
+        # native view of the published crate
+        env = dict(os.environ)
+        env["CARGO_TARGET_DIR"] = os.path.join(common.WORK, "target-reg")
+        env.pop("RUSTFLAGS", None)
+        pb = subprocess.run(["cargo", "build", "--offline", "--release", "--quiet"], cwd=os.path.join(common.VERIF, "harness-reg"),
+                            env=env, stdout=subprocess.PIPE, stderr=subprocess.STDOUT, text=True)
+        if pb.returncode != 0:
+            raise ToolError("lexrun-reg build failed: " + pb.stdout[-1500:])
+        regbin = os.path.join(common.WORK, "target-reg", "release", "lexrun")
+        native, pyview = {}, {}
+        for ci in range(0, len(cases), 3000):
+            chunk = cases[ci:ci + 3000]
+            cin = os.path.join(ctx.dir, "c20-in-%d.ndjson" % ci)
+            common.write_cases(cin, chunk)
+            o1 = os.path.join(ctx.dir, "c20-native-%d.ndjson" % ci)
+            run_child_chunk(lambda i_, o_: [regbin, "--in", i_, "--out", o_], chunk, cin, o1)
+            for rec in common.read_ndjson(o1):
+                native[rec["id"]] = rec
+            o2 = os.path.join(ctx.dir, "c20-py-%d.ndjson" % ci)
+            run_child_chunk(lambda i_, o_: [sys_python(), pyrun, "run", b["pkg"], os.path.join(common.REPO, "src/sas_lexer"), i_, o_],
+                            chunk, cin, o2)
+            for rec in common.read_ndjson(o2):
+                pyview[rec["id"]] = rec
+            for f_ in (cin, o1, o2):
+                if os.path.exists(f_):
+                    os.remove(f_)
+            ctx.evals += len(chunk)
+        returned = sum(1 for r in pyview.values() if r["ok"])
+        ctx.extra["python_calls_returned"] = returned
+        ctx.extra["python_calls_raised"] = len(pyview) - returned
+        ctx.extra["wellformed_programs"] = nmust
+        crashed = [c for c in cases if "cw" not in native.get(c["id"], {})]
+        ctx.extra["linked_crate_did_not_return_natively"] = len(crashed)
+        for c in crashed:
+            if c["id"] in must_ids:
+                ctx.violations.append(("C20_returns", c["id"], "the linked lexer crate did not return on a well-formed program", "py"))
+        pairs = ({"id": c["id"], "must_return": c["id"] in must_ids, "a": native[c["id"]], "b": pyview[c["id"]]}
+                 for c in cases if c["id"] in native and c["id"] in pyview and "cw" in native[c["id"]])
+        paths = write_pairs(ctx, "py", pairs)
+
+        def wtext(cid, clause, witness):
+            rec = native.get(cid, {})
+            if isinstance(witness, int) and 1 <= witness <= len(rec.get("rtoks", [])):
+                t = rec["rtoks"][witness - 1]
+                return "".join(rec["cs"][t["c"]:t["ec"]])
+            return None
+
+        judge_pairs(ctx, "py", paths, wtext)
+        if gen_diff:
+            ctx.cases["generated"] = {"id": "generated", "src": "", "files": gen_diff}
+            ctx.violations.append(("C20_generated", "generated", "enum modules rewritten by the build script differ from the "
+                                   "committed ones: %s" % ", ".join(gen_diff), "py"))
+    finally:
+        shutil.rmtree(scratch, ignore_errors=True)
+    return finish(ctx, "exploration",
+                  "the extension module is built from a scratch copy of the workspace (its build script rewrites the Python "
+                  "enum modules there; they are compared byte for byte with the committed ones), loaded by the system "
+                  "python3 and called on well-formed programs (construct grammar, sample files), corpus, soup, "
+                  "multi-byte/LF injections and the string family; the msgpack payload is decoded positionally into the "
+                  "fields declared in token.py/error.py; TLC evaluates the C20 clauses of spec/PyBind.tla on the pair "
+                  "(native view of the linked published crate, Python view)",
+                  ["the extension links the published sas-lexer 1.0.0-beta.3 from the offline registry, not the workspace "
+                   "crate; absolute clauses therefore judge that crate, fidelity clauses judge the binding",
+                   "a panic inside the linked crate on an arbitrary string is outside the property (counted, not reported)",
+                   "C20_generated is a file comparison, not model-based"])
+
+
+def sys_python():
+    return "/usr/bin/python3" if os.path.exists("/usr/bin/python3") else "python3"
+
+
+def _limit_mem():
+    import resource
+    resource.setrlimit(resource.RLIMIT_AS, (6 << 30, 6 << 30))
+
+
+def run_child_chunk(cmd, chunk, cin, out):
+    """Runs a child process on a case file.  A crash, hang or runaway allocation of the child (the linked
+    published crate can loop without bound) is isolated: the chunk is split into 32 parts run in parallel,
+    failing parts are run case by case; a case on which the child does not return is recorded as such."""
+    import subprocess
+    import concurrent.futures as cf
+
+    def attempt(cases, cin_, out_, timeout):
+        common.write_cases(cin_, cases)
+        try:
+            r = subprocess.run(cmd(cin_, out_), stdout=subprocess.PIPE, stderr=subprocess.STDOUT, text=True,
+                               timeout=timeout, preexec_fn=_limit_mem)
+            return r.returncode == 0
+        except subprocess.TimeoutExpired:
+            return False
+
+    if attempt(chunk, cin, out, 30 + len(chunk) // 50):
+        return
+    results = {}
+
+    def part(k_cases):
+        k, cases = k_cases
+        pin, pout = "%s.p%d" % (cin, k), "%s.p%d" % (out, k)
+        recs = []
+        if attempt(cases, pin, pout, 8):
+            recs = list(common.read_ndjson(pout))
+        else:
+            for n, c in enumerate(cases):
+                sin, sout = "%s.%d" % (pin, n), "%s.%d" % (pout, n)
+                if attempt([c], sin, sout, 3):
+                    recs.extend(common.read_ndjson(sout))
+                else:
+                    recs.append({"id": c["id"], "ok": False, "panic": "child process crashed, hung or ran out of memory",
+                                 "budget_exceeded": False, "events": [], "cs": list(c["src"]), "cc": []})
+                for f_ in (sin, sout):
+                    if os.path.exists(f_):
+                        os.remove(f_)
+        for f_ in (pin, pout):
+            if os.path.exists(f_):
+                os.remove(f_)
+        return recs
+
+    nparts = 32
+    parts = [(k, chunk[k::nparts]) for k in range(nparts) if chunk[k::nparts]]
+    with cf.ThreadPoolExecutor(max_workers=16) as ex:
+        for recs in ex.map(part, parts):
+            for rec in recs:
+                results[rec["id"]] = rec
+    with open(out, "w", encoding="utf-8") as f:
+        for c in chunk:
+            if c["id"] in results:
+                f.write(json.dumps(results[c["id"]], ensure_ascii=False) + "\n")
+
+
+RUNNERS = {"C20": run_c20, "CONF": run_conf, "C12": run_gen_prop, "C13": run_gen_prop, "C14": run_gen_prop, "C15": run_c15, "C16": run_c16, "C17": run_c17, "C18": run_c18, "C19": run_c19}
 
 
 def run(prop, tier, seed, replay=None, keep=False):
